@@ -7,15 +7,19 @@ package main
 
 import (
 	"bufio"
+	"bytes"
 	"encoding/hex"
 	"errors"
 	"fmt"
+	"os"
 	"sync"
+	"sync/atomic"
 	"time"
 
 	"git.metabarcoding.org/obitools/obitools4/obitools4/pkg/obiformats"
 	"git.metabarcoding.org/obitools/obitools4/obitools4/pkg/obiiter"
 	"git.metabarcoding.org/obitools/obitools4/obitools4/pkg/obiseq"
+	"git.metabarcoding.org/obitools/obitools4/obitools4/pkg/obiutils"
 	log "github.com/sirupsen/logrus"
 )
 
@@ -31,6 +35,17 @@ type c18case struct {
 	Bytes      []int  `json:"bytes"`       // if set: batch i holds one record sized so that its formatted chunk has exactly bytes[i] bytes (0: empty batch)
 	CutAt      int    `json:"cut_at"`      // > 0: the first write crossing this absolute offset stops there and reports NO error (once)
 	ZeroErr    bool   `json:"zero_err"`    // a zero-length write returns an error
+	// round 3
+	Unowned  bool   `json:"unowned"`   // OptionDontCloseFile: the stream is not closed by the writer (JSON / CSV on stdout)
+	SlowLog  bool   `json:"slow_log"`  // the logger is slow (25 ms per message): "main" runs ahead of a log.Fatalf that is issued after completion was signalled
+	Rich     bool   `json:"rich"`      // records with definition, annotations (escapes, non-ASCII), qualities, taxid, count; CSV with all optional columns
+	Mode     string `json:"mode"`      // "" : the four writers | "chunk" : WriteSeqFileChunk fed with the formatted chunks | "wfile" : calls on one obiutils.Wfile
+	KeepOpen bool   `json:"keep_open"` // chunk mode: toBeClosed = false, the caller (the harness) closes afterwards and checks the error
+	Ops      []int  `json:"ops"`       // wfile mode: sizes of the successive writes (negative: WriteString)
+	Path     string `json:"path"`      // wfile mode: OpenWritingFile(path) instead of CompressStream(sink)
+	Append   bool   `json:"append"`    // wfile mode with path
+	Pre      int    `json:"pre"`       // wfile mode with path: bytes already in the file
+	Empty    bool   `json:"empty"`     // every non-empty batch also holds a record with an empty sequence; the writers run with OptionsSkipEmptySequence(true)
 }
 
 type c18obs struct {
@@ -45,6 +60,10 @@ type c18obs struct {
 	Zeros     int  `json:"zero_writes"` // zero-length writes received
 	Syncs     int  `json:"syncs"`       // calls of Sync (it would fail)
 	DevFailed bool `json:"dev_failed"`  // some Write or Close of the device returned an error
+	// wfile mode
+	Reported bool   `json:"reported"`       // some Write / WriteString / Close of the Wfile returned an error
+	OpenErr  bool   `json:"open_err"`       // OpenWritingFile returned an error
+	File     string `json:"file,omitempty"` // path mode: hex of the file afterwards (regular files only)
 }
 
 var errC18Full = errors.New("no space left on device (injected)")
@@ -178,6 +197,9 @@ func c18sized(w string, b, target int) (seqlen, idpad int, ok bool) {
 	return 0, 0, false
 }
 
+var c18rich = false  // records of the running case carry annotations etc. (set by c18run)
+var c18empty = false // a record with an empty sequence in every non-empty batch, skipped by the writers
+
 func c18batchP(w string, b, n, order, seqlen, idpad int) obiiter.BioSequenceBatch {
 	sl := make(obiseq.BioSequenceSlice, 0, n)
 	for i := 0; i < n; i++ {
@@ -204,18 +226,54 @@ func c18batchP(w string, b, n, order, seqlen, idpad int) obiiter.BioSequenceBatc
 		} else {
 			s = obiseq.NewBioSequence(id, sq, "")
 		}
+		if c18rich {
+			s.SetDefinition(fmt.Sprintf("d\u00e9finition \"%d\", a<b>&c", i))
+			s.SetAttribute("k1", "x \"q\" \\u00e9 \t \u00e9\u2028<&> \U0001F600,;\n.")
+			s.SetAttribute("k2", map[string]interface{}{"a": 1, "b": []interface{}{1.5, "z", true}})
+			s.SetAttribute("k3", 3.25+float64(i))
+			s.SetCount(3 + i)
+			if (b+i)%2 == 0 {
+				s.SetTaxid(9606 + i)
+				s.SetAttribute("scientific_name", "Homo, \"sapiens\"")
+			} else if i%2 == 1 {
+				s.SetTaxid(7 + i) // a taxid without a name
+			}
+			if w != "fastq" && (b+i)%3 != 1 {
+				q := make([]byte, len(sq))
+				for k := range q {
+					q[k] = byte(1 + k%40)
+				}
+				s.SetQualities(q)
+			}
+		}
 		sl = append(sl, s)
+		if c18empty && i == n/2 {
+			if w == "fastq" {
+				sl = append(sl, obiseq.NewBioSequenceWithQualities(id+"_empty", []byte{}, "", []byte{}))
+			} else {
+				sl = append(sl, obiseq.NewBioSequence(id+"_empty", []byte{}, ""))
+			}
+		}
 	}
 	return obiiter.MakeBioSequenceBatch("verif", order, sl)
 }
 
+// options that change the formatted text
+func c18fmtopts() []obiformats.WithOption {
+	if !c18rich {
+		return nil
+	}
+	return []obiformats.WithOption{obiformats.CSVCount(true), obiformats.CSVTaxon(true), obiformats.CSVDefinition(true),
+		obiformats.CSVQuality(true), obiformats.CSVKeys([]string{"k1", "k3", "absent", "k2"}), obiformats.CSVNAValue("n/a")}
+}
+
 func c18format(w string, batch obiiter.BioSequenceBatch) []byte {
-	opt := obiformats.MakeOptions(nil)
+	opt := obiformats.MakeOptions(c18fmtopts())
 	switch w {
 	case "fasta":
-		return obiformats.FormatFastaBatch(batch, opt.FormatFastSeqHeader(), false).Bytes()
+		return obiformats.FormatFastaBatch(batch, opt.FormatFastSeqHeader(), c18empty).Bytes()
 	case "fastq":
-		return obiformats.FormatFastqBatch(batch, opt.FormatFastSeqHeader(), false).Bytes()
+		return obiformats.FormatFastqBatch(batch, opt.FormatFastSeqHeader(), c18empty).Bytes()
 	case "json":
 		return obiformats.FormatJSONBatch(batch)
 	case "csv":
@@ -235,6 +293,14 @@ func c18run(c c18case) (o c18obs) {
 		}
 	}()
 	o.Kind = "ok"
+	c18rich, c18empty = c.Rich, c.Empty && (c.Writer == "fasta" || c.Writer == "fastq")
+	if c.Mode == "wfile" {
+		return c18wfile(c)
+	}
+	if c.SlowLog {
+		log.SetOutput(c18slowlog{n: new(int32)})
+		defer log.SetOutput(os.Stderr)
+	}
 	n := len(c.Sizes)
 	type shape struct{ n, seqlen, idpad int }
 	var shapes []shape
@@ -276,6 +342,36 @@ func c18run(c c18case) (o c18obs) {
 	c18cur, c18fatal, c18snapGot, c18snapCloses = sink, false, nil, 0
 	c18mu.Unlock()
 
+	if c.Mode == "chunk" {
+		// WriteSeqFileChunk (the variant without completion signal) fed directly with the formatted chunks, in
+		// the arrival order, over a Wfile; toBeClosed = false: the caller closes afterwards
+		wf, _ := obiutils.CompressStream(sink, c.Compressed, !c.Unowned)
+		ch := obiformats.WriteSeqFileChunk(wf, !c.KeepOpen)
+		go func() {
+			for _, b := range c.Arrival {
+				ch <- obiformats.SeqFileChunk{Source: "verif", Raw: bytes.NewBuffer(c18format(c.Writer, mk(b, b))), Order: b}
+			}
+			close(ch)
+		}()
+		all := make(chan struct{})
+		go func() { obiiter.WaitForLastPipe(); close(all) }()
+		select {
+		case <-all:
+		case <-time.After(15 * time.Second):
+			o.Kind, o.Err, c18poisoned = "hang", "pipes never unregistered", true
+		}
+		if c.KeepOpen && o.Kind == "ok" {
+			c18mu.Lock()
+			dead := c18fatal
+			c18mu.Unlock()
+			if !dead {
+				if e := wf.Close(); e != nil {
+					c18exit(1) // the caller reports it
+				}
+			}
+		}
+		return c18finish(c, sink, o)
+	}
 	input := obiiter.MakeIBioSequence()
 	batches := make([]obiiter.BioSequenceBatch, n)
 	for b := 0; b < n; b++ {
@@ -289,6 +385,13 @@ func c18run(c c18case) (o c18obs) {
 	}()
 	opts := []obiformats.WithOption{obiformats.OptionsParallelWorkers(c.Workers), obiformats.OptionCloseFile(),
 		obiformats.OptionsCompressed(c.Compressed)}
+	if c.Unowned {
+		opts[1] = obiformats.OptionDontCloseFile()
+	}
+	opts = append(opts, c18fmtopts()...)
+	if c18empty {
+		opts = append(opts, obiformats.OptionsSkipEmptySequence(true))
+	}
 	var res obiiter.IBioSequence
 	var err error
 	switch c.Writer {
@@ -325,6 +428,8 @@ func c18run(c c18case) (o c18obs) {
 		case <-tmo:
 			o.Kind, o.Err, c18poisoned = "hang", "pipes never unregistered", true
 		}
+	} else if o.Kind == "ok" && c.Unowned {
+		time.Sleep(20 * time.Millisecond) // a stream that is not owned is never closed: nothing to wait for
 	} else if o.Kind == "ok" {
 		select {
 		case <-sink.done:
@@ -333,6 +438,10 @@ func c18run(c c18case) (o c18obs) {
 			o.Kind, o.Err = "hang", "sink never closed"
 		}
 	}
+	return c18finish(c, sink, o)
+}
+
+func c18finish(c c18case, sink *c18sink, o c18obs) c18obs {
 	sink.mu.Lock()
 	o.Zeros, o.Syncs, o.DevFailed = sink.zeros, sink.syncs, sink.failed
 	sink.mu.Unlock()
@@ -348,6 +457,85 @@ func c18run(c c18case) (o c18obs) {
 		sink.mu.Unlock()
 	}
 	c18cur = nil
+	return o
+}
+
+// a slow log device: what a terminal / a pipe to a busy reader is for log.Fatalf
+type c18slowlog struct{ n *int32 }
+
+// only the first message of a case is slow: it is the one that races with main (after the intercepted exit the code
+// goes on and may log one fatal message per remaining write)
+func (l c18slowlog) Write(p []byte) (int, error) {
+	if atomic.AddInt32(l.n, 1) == 1 {
+		time.Sleep(25 * time.Millisecond)
+	}
+	return len(p), nil
+}
+
+// c18wfile: a history of calls on ONE obiutils.Wfile: Write / WriteString of the given sizes, then Close.
+// Observed: did any call return an error; what the device holds; how often it was closed.
+func c18wfile(c c18case) (o c18obs) {
+	o.Kind = "ok"
+	sink := &c18sink{done: make(chan struct{}), failAt: c.FailAt, closeFails: c.CloseFails, cutAt: c.CutAt, zeroErr: c.ZeroErr}
+	var wf *obiutils.Wfile
+	var err error
+	if c.Path != "" {
+		if c.Pre >= 0 {
+			pre := make([]byte, c.Pre)
+			for i := range pre {
+				pre[i] = 'P'
+			}
+			if e := os.WriteFile(c.Path, pre, 0o644); e != nil && c.Path != "/dev/full" {
+				o.Kind, o.Err = "skip", e.Error()
+				return
+			}
+		}
+		wf, err = obiutils.OpenWritingFile(c.Path, c.Compressed, c.Append)
+		if err != nil {
+			o.OpenErr, o.Reported, o.Exit = true, true, "fatal"
+			return
+		}
+	} else {
+		wf, _ = obiutils.CompressStream(sink, c.Compressed, !c.Unowned)
+	}
+	pos := 0
+	for _, n := range c.Ops {
+		m := n
+		if m < 0 {
+			m = -m
+		}
+		p := make([]byte, m)
+		for i := range p {
+			p[i] = "acgt"[(pos+i)%4]
+		}
+		pos += m
+		o.Chunks = append(o.Chunks, hex.EncodeToString(p))
+		var e error
+		if n < 0 {
+			_, e = wf.WriteString(string(p))
+		} else {
+			_, e = wf.Write(p)
+		}
+		if e != nil {
+			o.Reported = true
+		}
+	}
+	if e := wf.Close(); e != nil {
+		o.Reported = true
+	}
+	o.Exit = "ok"
+	if o.Reported {
+		o.Exit = "fatal"
+	}
+	sink.mu.Lock()
+	o.Zeros, o.Syncs, o.DevFailed = sink.zeros, sink.syncs, sink.failed
+	o.Got, o.Closes = hex.EncodeToString(sink.buf), sink.closes
+	sink.mu.Unlock()
+	if c.Path != "" && c.Path != "/dev/full" {
+		if data, e := os.ReadFile(c.Path); e == nil {
+			o.File = hex.EncodeToString(data)
+		}
+	}
 	return
 }
 
